@@ -21,7 +21,8 @@ class MemFS:
     def __init__(self, nodes, symlinks=None):
         self.nodes = dict(nodes)          # absolute posix path -> DIR | bytes
         self.symlinks = dict(symlinks or {})
-        self.log = []                     # (op, destination path)
+        self.log = []                     # (op, destination path) of operations that took effect
+        self.attempts = []                # every mutating call, also those that failed their precondition checks
         self.count = 0
         self.fail_at = None               # SymInt / int / None
         self.failed = False
@@ -60,9 +61,13 @@ class MemFS:
         return {k[len(root):]: (v if v == DIR else bytes(v)) for k, v in self.nodes.items() if k == root or k.startswith(root + "/")}
 
     # ---- mutation (logged, counted, fault-injectable) ------------------------------------------------
+    def _effect(self, op, dst):
+        """the operation passed its precondition checks and is about to change the tree"""
+        self.log.append((op, self._abs(dst)))
+
     def _op(self, op, dst):
         self.count += 1
-        self.log.append((op, self._abs(dst)))
+        self.attempts.append((op, self._abs(dst)))
         k = self.fail_at
         if k is not None and not self.failed:
             hit = (k == self.count)
@@ -77,6 +82,7 @@ class MemFS:
             raise FileNotFoundError(2, "No such file or directory", p)
         if self.nodes[p] == DIR:
             raise IsADirectoryError(21, "Is a directory", p)
+        self._effect("unlink", p)
         del self.nodes[p]
 
     def rmtree(self, p, ignore_errors=False):
@@ -91,6 +97,7 @@ class MemFS:
             if ignore_errors:
                 return
             raise
+        self._effect("rmtree", p)
         for k in self.children(p) + [p]:
             del self.nodes[k]
 
@@ -105,9 +112,11 @@ class MemFS:
         if par not in self.nodes:
             if not parents:
                 raise FileNotFoundError(2, "No such file or directory", p)
+            self._effect("mkdir", par)
             self._mk(par)
         elif self.nodes[par] != DIR:
             raise NotADirectoryError(20, "Not a directory", p)
+        self._effect("mkdir", p)
         self.nodes[p] = DIR
 
     def _mk(self, p):
@@ -125,11 +134,13 @@ class MemFS:
             raise FileNotFoundError(2, "No such file or directory", p)
         if self.nodes.get(p) == DIR:
             raise IsADirectoryError(21, "Is a directory", p)
+        self._effect("write", p)
         self.nodes[p] = bytes(data) if not isinstance(data, str) else data.encode()
 
     def touch(self, p):
         self._op("touch", p)
         p = self._abs(p)
+        self._effect("touch", p)
         if p not in self.nodes:
             self.nodes[p] = b""
 
@@ -145,6 +156,7 @@ class MemFS:
         par = posixpath.dirname(dst)
         if self.nodes.get(par) != DIR:
             raise FileNotFoundError(2, "No such file or directory", dst)
+        self._effect("copy", dst)
         self.nodes[dst] = self.nodes[src]
         return dst
 
@@ -157,6 +169,7 @@ class MemFS:
             raise NotADirectoryError(20, "Not a directory", src)
         if dst in self.nodes and not (dirs_exist_ok and self.nodes[dst] == DIR):
             raise FileExistsError(17, "File exists", dst)
+        self._effect("copytree", dst)
         self._mk(dst)
         for k in self.children(src):
             self.nodes[dst + k[len(src):]] = self.nodes[k]
@@ -165,6 +178,7 @@ class MemFS:
     def rename(self, a, b):
         self._op("rename", b)
         a, b = self._abs(a), self._abs(b)
+        self._effect("rename", b)
         for k in [a] + self.children(a):
             self.nodes[b + k[len(a):]] = self.nodes.pop(k)
 
